@@ -9,6 +9,13 @@ TRUST = [
 ]
 
 CONFIG = {
+    "C07": {
+        "level": "exploration",
+        "assumptions": TRUST + ["'cannot be decoded' is judged by an independent reading of the documented request shape; bodies whose classification the statement leaves open (empty query, odd-case or duplicate keys, multipart without files) accept 200 or 422",
+                                "only POST is in the domain"],
+        "quick": {"tests": [("TestC07", 4000)], "shards": 4, "timeout": 600},
+        "thorough": {"tests": [("TestC07", 60000)], "shards": 16, "timeout": 2400, "fuzz": [("FuzzHandlerBytes", 120), ("FuzzHandlerMultipart", 90)]},
+    },
     "C05": {
         "level": "exploration",
         "assumptions": TRUST + ["conflict edits use fresh type names so that every service SDL stays individually valid", "routes of shared non-Node types are last-writer by design and not compared"],
